@@ -131,6 +131,12 @@ let rec flat_map f = function
 | [] -> []
 | x :: t -> app (f x) (flat_map f t)
 
+(** val existsb : ('a1 -> bool) -> 'a1 list -> bool **)
+
+let rec existsb f = function
+| [] -> false
+| a :: l0 -> (||) (f a) (existsb f l0)
+
 (** val firstn : nat -> 'a1 list -> 'a1 list **)
 
 let rec firstn n l =
@@ -1854,3 +1860,8 @@ let admissible h digest_eqb s = function
 
 let idh b =
   b
+
+(** val check_exit : bool list -> z **)
+
+let check_exit fails =
+  if existsb (fun b -> b) fails then Zpos XH else Z0
